@@ -85,6 +85,24 @@ func main() {
 		}
 		strs = append(strs, string(bs))
 	}
+	// longer strings, around the machine word sizes: equal-length pairs that differ in exactly one byte, at every position
+	// of lengths 7..9, 15..17 and 24, plus the equal pair and a pair of different lengths
+	var longPairs [][2]string
+	for _, l := range []int{7, 8, 9, 15, 16, 17, 24} {
+		base := make([]byte, l)
+		for j := range base {
+			base[j] = byte('a' + (j*7+l)%26)
+		}
+		longPairs = append(longPairs, [2]string{string(base), string(base)}, [2]string{string(base), string(base[:l-1])})
+		for j := 0; j < l; j++ {
+			if l > 9 && j > 1 && j < l-9 && j%3 != 0 {
+				continue
+			}
+			o := append([]byte{}, base...)
+			o[j] ^= 0x01
+			longPairs = append(longPairs, [2]string{string(base), string(o)}, [2]string{string(o), string(base)})
+		}
+	}
 	pick := func(k int) [][2]int {
 		var ps [][2]int
 		for i := 0; i < k; i++ {
@@ -113,6 +131,11 @@ func main() {
 			emit(Case{Kind: "eqstr", A: bytesOf(a), B: bytesOf(b), Obs: []int64{b2i(eq.String.Equal(a, b))}})
 			emit(Case{Kind: "ordstr", A: bytesOf(a), B: bytesOf(b), Obs: []int64{int64(ord.String.Compare(a, b))}})
 		}
+	}
+	for _, p := range longPairs {
+		a, b := p[0], p[1]
+		emit(Case{Kind: "eqstr", A: bytesOf(a), B: bytesOf(b), Obs: []int64{b2i(eq.String.Equal(a, b))}})
+		emit(Case{Kind: "ordstr", A: bytesOf(a), B: bytesOf(b), Obs: []int64{int64(ord.String.Compare(a, b))}})
 	}
 	// small values for the coded functions (no overflow)
 	small := func() int { return rng.Intn(41) - 20 }
